@@ -29,7 +29,11 @@ RULE = ('Programs from the typed generator G (procedures, loops, GOSUB, '
         'enumerates all histories of length <= 3 over the command '
         'alphabet.  A second pass single-steps each program from start to '
         'end and compares the stops with the reference interpreter\'s '
-        'statement execution order.  Non-trivial: the history contains a '
+        'statement execution order, and every stop of that traversal with '
+        'the model.  Three fixed programs (single-line IF with and without '
+        'ELSE, SELECT CASE with GOSUB, recursion / function / nested loops) '
+        'get the same treatment plus all histories up to length 3 in both '
+        'tiers.  Non-trivial: the history contains a '
         'stepping command issued inside a procedure or loop and a '
         'breakpoint that is hit.  Distinct by (text, history).')
 ASSUMPTIONS = [
@@ -395,6 +399,14 @@ def step_order(prog, script, rendered, module, model, cfg):
     machine, impl, sink = X.make_machine(module, X.Script(**script))
     cpu = machine.cpu
     stops = []
+    tick_stops = []
+    nticks = [0]
+    orig_tick = cpu.tick
+
+    def counting_tick():
+        nticks[0] += 1
+        return orig_tick()
+    cpu.tick = counting_tick
     try:
         with contextlib.redirect_stdout(io.StringIO()), \
                 X.guard(X.RUN_TIMEOUT):
@@ -404,8 +416,10 @@ def step_order(prog, script, rendered, module, model, cfg):
                 s = model.stmt_at(cpu.pc)
                 if s is not None:
                     stops.append(model.recs[s].source_start_line)
+                tick_stops.append(nticks[0])
                 dbg.onecmd('step')
                 n += 1
+            tick_stops.append(nticks[0])
     except X.HangGuard:
         return [('step_order:hang', {})], None
     except BaseException as e:
@@ -414,6 +428,18 @@ def step_order(prog, script, rendered, module, model, cfg):
         h = X.HostExc(e, 'debugger')
         return [('debugger_exception:' + h.bucket(), {'tb': h.tb[-900:]})], \
             None
+    # the whole traversal, stop by stop, against the model (this sees a
+    # missed statement also when it shares its line with the previous one)
+    k = tick_stops[0] if tick_stops else 0
+    for nxt in tick_stops[1:]:
+        if k >= model.T:
+            break
+        adm = model.expected('step', k, set())
+        if nxt not in adm:
+            return [('step_order:traversal_stop_differs', {
+                'at': k, 'stopped_at': nxt, 'expected': sorted(adm),
+                'T': model.T})], None
+        k = nxt
     # `want` must be a subsequence of `stops`
     i = 0
     for ln in stops:
@@ -443,7 +469,8 @@ def judge(prog, script, style, level, cmds, cfg):
     failures, dinfo = drive(m.module, script, cmds, model, cfg)
     info.update(dinfo)
     info['exhaustive'] = 0
-    if cfg['tier'] == 'thorough' and not failures and model.T <= 80:
+    if cfg['tier'] == 'thorough' and not failures and \
+            model.T <= cfg.get('exhaustive_T', 80):
         import itertools
         alpha = [('step', None), ('next', None), ('stepi', None),
                  ('nexti', None), ('continue', None), ('break', 1),
@@ -538,3 +565,81 @@ def shrink(failure, cfg):
             return {'bucket': b, 'detail': d, 'case': cases.encode_case(
                 small, script, style, {'level': level, 'cmds': cmds})}
     return failure
+
+
+# ---------------------------------------------------------------------------
+# Fixed programs with the shapes stepping depends on (single-line IF with
+# ELSE, SELECT CASE, GOSUB, nested and recursive calls): in both tiers each is
+# single-stepped from start to end against R's statement order and driven
+# through all histories of up to three commands.
+def _n(v):
+    return A.Num('%', v, str(v))
+
+
+def _lv(name):
+    return A.LV(name, [], [], name[-1])
+
+
+def fixed_programs():
+    pr = lambda *it: A.Print(list(it))
+    p1 = A.Program([
+        A.For(_lv('i%'), _n(1), _n(3), None, [
+            A.IfLine(A.Bin('=', _lv('i%'), _n(1), '%'),
+                     [pr(A.Str('a')), A.Assign(_lv('x%'), _n(1))],
+                     [pr(A.Str('c')), A.Assign(_lv('x%'), _n(2))]),
+            A.IfLine(A.Bin('>', _lv('i%'), _n(2), '%'), [pr(A.Str('t'))],
+                     None),
+            A.IfLine(A.Bin('=', _lv('i%'), _n(2), '%'), [pr(A.Str('b'))],
+                     [pr(A.Str('e'))])]),
+        pr(A.Str('done'))])
+    p2 = A.Program([
+        A.For(_lv('k%'), _n(1), _n(4), None, [
+            A.Select(_lv('k%'), [
+                ([('v', _n(1))], [pr(A.Str('one'))]),
+                ([('v', _n(2)), ('v', _n(3))], [pr(A.Str('two')),
+                                                A.Gosub('gs')]),
+            ], [pr(A.Str('else'))])]),
+        A.End(),
+        A.LabelDef('gs'), pr(A.Str('in gosub')), A.Return()])
+    p3 = A.Program([
+        A.Assign(_lv('d%'), _n(0)),
+        A.CallSub('rc', [_n(2)]),
+        pr(A.FCall('fv%', [_n(3)], '%')),
+        A.Do('loop_until', A.Bin('>', _lv('d%'), _n(1), '%'), [
+            A.Assign(_lv('d%'), A.Bin('+', _lv('d%'), _n(1), '%')),
+            A.While(A.Bin('<', _lv('w%'), _lv('d%'), '%'),
+                    [A.Assign(_lv('w%'), A.Bin('+', _lv('w%'), _n(1),
+                                               '%'))])]),
+        A.Proc('sub', 'rc', [A.Param('n%', '%')], False, [
+            A.If([(A.Bin('>', _lv('n%'), _n(0), '%'),
+                   [A.CallSub('rc', [A.Bin('-', _lv('n%'), _n(1), '%')])])],
+                 None),
+            pr(A.Str('rc'), ';', _lv('n%'))]),
+        A.Proc('function', 'fv%', [A.Param('m%', '%')], False, [
+            A.IfLine(A.Bin('>', _lv('m%'), _n(2), '%'),
+                     [A.RetAssign('fv%', A.Bin('*', _lv('m%'), _n(2), '%'),
+                                  '%')],
+                     [A.RetAssign('fv%', _n(0), '%')])], '%')])
+    return [p1, p2, p3]
+
+
+def items(cfg):
+    return [(k, level) for k in range(3) for level in (0, 2)]
+
+
+def check_item(item, cfg):
+    k, level = item
+    prog = fixed_programs()[k]
+    cfg2 = dict(cfg, tier='thorough', exhaustive_T=600)
+    cmds = [('step', None)] * 3 + [('next', None)] * 2
+    failures, info = judge(prog, {}, render.PLAIN, level, cmds, cfg2)
+    fl = []
+    if failures:
+        enc = cases.encode_case(prog, {}, render.PLAIN,
+                                {'level': level, 'cmds': cmds})
+        fl = [{'bucket': 'fixed:' + b, 'detail': d, 'case': enc}
+              for b, d in failures]
+    return {'key': digest([info['text'], level, 'fixed']),
+            'nontrivial': bool(info.get('accepted')),
+            'classes': ['fixed_program:%d' % k, 'level:%d' % level],
+            'failures': fl, 'extra_evals': info.get('exhaustive', 0)}
